@@ -205,9 +205,9 @@ def run_loom(tier=None, log=None):
         return False, "the lock source rewritten for loom does not build: " + " | ".join(errs[:3])[:400]
     t0 = time.time()
     try:
-        p = subprocess.run([LOOM_BIN, "thorough"], stdout=subprocess.PIPE, stderr=subprocess.DEVNULL, text=True, timeout=120)
+        p = subprocess.run([LOOM_BIN, "thorough"], stdout=subprocess.PIPE, stderr=subprocess.DEVNULL, text=True, timeout=1500)
     except subprocess.TimeoutExpired:
-        return False, "loom exploration did not finish within 120 s"
+        return False, "loom exploration did not finish within 1500 s"
     lines = [l for l in p.stdout.split("\n") if l.startswith("LOOM")]
     if p.returncode == 0 and lines and lines[-1].startswith("LOOM ok"):
         return True, lines[-1] + f" ({time.time() - t0:.1f}s)"
